@@ -226,6 +226,15 @@ def skeleton_check(ctx, exe, sc, thorough):
         shp += shapes(n)
     for _ in range(600 if thorough else 120):
         shp.append(random_shape(rng, rng.choice([3, 4, 5, 6])))
+    # the dangling-else family: a braced body that ends in an open `if`, under k brace-less loops, in the then-branch of if/else
+    opens = [("if", ("x",)), ("loop", ("if", ("x",))), ("ife", ("x",), ("if", ("x",))), ("if", ("ife", ("x",), ("x",))), ("if", ("blk", ("if", ("x",))))]
+    for k in range(0, 4):
+        for w in opens:
+            body = ("blk", w)
+            for _ in range(k):
+                body = ("loop", body)
+            shp.append(("ife", body, ("x",)))
+            shp.append(("ife", ("x",), ("ife", body, ("blk", ("x",)))))
     shp = [s for s in shp if wf_shape(s)]
     files = []
     group = 6
@@ -395,7 +404,7 @@ def run(ctx):
                 if len(opts) > 1 and fails(o2):
                     opts = o2
             hang = v == "exit" and "timeout" in msg
-            key = {"symptom": "hang" if hang else v, "opts": {k: _optclass(x, hang) for k, x in sorted(opts.items())}}
+            key = {"symptom": "hang" if hang else v, "opts": {k: (">0" if k == "mod_infinite_loop" else _optclass(x, hang)) for k, x in sorted(opts.items())}}
             # token-level cause under whitespace-only options: which two tokens were fused
             if not any(k.startswith("mod_") for k in opts):
                 jj = pipeline.Job("min", sc.cfg(None, opts), j.inp, j.lang, {})
